@@ -215,7 +215,30 @@ fn flight(t: &mut Tape) -> Vec<MRecord> {
         comp: 0,
         ext: Some({ let mut e = Enc::new(); MExt::SupportedVersions(vec![0x0304], true).encode(&mut e); MExt::KeyShare({ let mut k = vec![0, 0x1d, 0, 32]; k.extend(t.bytes(32)); k }).encode(&mut e); e.buf }),
     };
-    match t.below(5) {
+    match t.below(7) {
+        // a hello whose extensions negotiate something about later records (max_fragment_length, heartbeat mode, record_size_limit,
+        // connection_id, ...), then records a state-keeping parser might treat differently: large handshake and application-data
+        // records, heartbeat records. The multi-record parsers keep no state between records
+        5 | 6 => {
+            let (ext, _) = gen_negotiation_ext(t);
+            let hello = if t.bool() {
+                MHs::ServerHello { version: 0x0303, random: t.bytes(32), sid: None, cipher: 0xc02f, comp: 0, ext: Some(ext) }
+            } else {
+                MHs::ClientHello { version: 0x0303, random: t.bytes(32), sid: None, ciphers: vec![0xc02f, 0x1301], comp: vec![0], ext: Some(ext) }
+            };
+            let big = t.pick(&[513usize, 610, 1025, 2049, 4097, 16000]);
+            let hb = MRecord { ctype: 0x18, version: 0x0303, msgs: vec![MMsg::Heartbeat { ty: 1, payload_len: 4, payload: vec![1, 2, 3, 4] }], padding: vec![0; 16] };
+            let mut v = vec![hs(vec![hello])];
+            for _ in 0..1 + t.below(4) {
+                v.push(match t.below(4) {
+                    0 => hs(vec![MHs::Certificate { chain: vec![vec![0x30; big]] }]),
+                    1 => app(big),
+                    2 => hb.clone(),
+                    _ => hs(vec![MHs::ServerDone(vec![])]),
+                });
+            }
+            v
+        }
         // TLS 1.3 server flight with the middlebox-compatibility ChangeCipherSpec, then protected records
         0 => vec![hs(vec![tls13_sh(t)]), ccs(), app(40), app(300), app(19)],
         // HelloRetryRequest-shaped ServerHello, CCS, second ServerHello
@@ -357,7 +380,37 @@ fn dtls_many(t: &mut Tape, obs: &mut Obs) -> R {
         (n, (0..n).map(|_| gen_dtls_record(t)).collect())
     };
     let probe = gen_dtls_record(t).to_bytes();
-    let (en, mut end) = ending(t, true, &probe);
+    let (mut en, mut end) = ending(t, true, &probe);
+    // a hello that negotiates a connection id (RFC 9146) and other things, then records in the tls12_cid layout with that id and more
+    // valid records: parse_dtls_plaintext_record does not decode content type 25, so the list ends in front of the first such record
+    let negotiated = t.chance(20);
+    let (n, recs) = if negotiated {
+        let (ext, cid) = gen_negotiation_ext(t);
+        let body = if t.bool() {
+            MDtlsBody::ClientHello { version: 0xfefd, random: t.bytes(32), sid: None, cookie: vec![], ciphers: vec![0xc02f], comp: vec![0], ext: Some(ext) }
+        } else {
+            MDtlsBody::ServerHello { version: 0xfefd, random: t.bytes(32), sid: None, cipher: 0xc02f, comp: 0, ext: Some(ext) }
+        };
+        let ty = if matches!(body, MDtlsBody::ClientHello { .. }) { 1 } else { 2 };
+        let mut be = Enc::new();
+        body.encode(&mut be);
+        let l = be.buf.len() as u32;
+        let hello = MDtlsRecord { ctype: 0x16, version: 0xfefd, epoch: 0, seq: 0, msgs: vec![MDtlsMsg::Hs(MDtlsHs { msg_type: ty, length: l, message_seq: 0, fragment_offset: 0, fragment_length: l, body })] };
+        let ccs = MDtlsRecord { ctype: 0x14, version: 0xfefd, epoch: 0, seq: 1, msgs: vec![MDtlsMsg::Ccs] };
+        let mut x = Enc::new();
+        x.u8(25);
+        x.u16(0xfefd);
+        x.u16(1);
+        x.bytes(&[0, 0, 0, 0, 0, 0]);
+        x.bytes(&cid);
+        x.vec(2, "cid.len", &t.bytes(40));
+        x.bytes(&MDtlsRecord { ctype: 0x15, version: 0xfefd, epoch: 1, seq: 1, msgs: vec![MDtlsMsg::Alert(1, 0)] }.to_bytes());
+        en = "connection-id-records";
+        end = x.buf;
+        (2, vec![hello, ccs])
+    } else {
+        (n, recs)
+    };
     if en == "garbage" && t.chance(40) {
         end.extend(std::iter::repeat(0xff).take(t.pick(&[65536usize, 100_000, 300_000])));
     }
